@@ -376,16 +376,20 @@ Theorem C12_is_orf_residues : forall s f a e, is_orf s f a e ->
 Proof. exact is_orf_residues. Qed.
 Print Assumptions C12_is_orf_residues.
 
-(* every form of rf: decision table (error class or frame list) *)
+(* every form of rf: decision table (error class or frame list; orfs_frames_st is the loop over the frames that hands the
+   popped match lists on to a later pass over the SAME frame); without repeated frames it is find_orfs_x *)
 Theorem C12_rf_forms : forall gap start stop rf ns need_stop minlen s,
   find_orfs_any gap start stop rf ns need_stop minlen s =
   match rf with
   | RAbadstr => XErr (bs "AssertionError"%bs)
   | RAnpint _ | RAfloat | RAnone => XErr (bs "TypeError"%bs)
-  | RAspec r => xres (orfs_frames_x (gap_set gap) (pat_words start) (pat_words stop) ns need_stop minlen s
+  | RAspec r => xres (orfs_frames_st (gap_set gap) (pat_words start) (pat_words stop) ns need_stop minlen s []
                         (match r with RFfwd => [0; 1; 2] | RFbwd => [-1; -2; -3] | RFboth => [0; 1; 2; -1; -2; -3]
                                     | RFint z => [z] | RFtuple l => l end))
-  end.
+  end /\
+  (forall r, nodupz (frames_of r) = true ->
+     find_orfs_any gap start stop (RAspec r) ns need_stop minlen s =
+     xres (find_orfs_x (gap_set gap) (pat_words start) (pat_words stop) r ns need_stop minlen s)).
 Proof. exact rf_forms. Qed.
 Print Assumptions C12_rf_forms.
 
@@ -415,3 +419,31 @@ Example C12_witness_gapset :
   is_orf (bs "AUGCCCTAAUUAGGGCAU"%bs) 0 0 9.
 Proof. exact (conj eq_refl (conj eq_refl (conj eq_refl (conj eq_refl (conj eq_refl (conj eq_refl (conj eq_refl (conj eq_refl
               (conj eq_refl is_orf_witness))))))))). Qed.
+
+(* is_orf is a first-principles predicate on the TEXT. On a gap-free sequence, with codon_at ws s f i := i < len(s), i = frame
+   offset (mod 3), one of the words is a prefix of the strand at column i (no matcher, no lists): is_orf s f a e holds iff a is
+   the column of an in-frame start codon, e the end of an in-frame stop codon, a < e, no in-frame stop codon ends in between and
+   every earlier in-frame start codon is cut off by an in-frame stop codon *)
+Theorem C12_is_orf_text : forall s f a e, forallb (fun c => negb (is_gap c)) s = true ->
+  (is_orf s f a e <->
+   (start_col s f a /\ stop_end s f e /\ a < e /\ (forall e', stop_end s f e' -> e' < e -> e' <= a) /\
+    (forall a', start_col s f a' -> a' < a -> exists e', stop_end s f e' /\ a' < e' /\ e' <= a))) /\
+  (forall a, start_col s f a <-> exists i, a = Z.of_nat i /\ (i < length s)%nat /\ Z.of_nat i mod 3 = frame_key f /\
+                                           word_at START_WORDS (skipn i (strand_str s f)) = true) /\
+  (forall e, stop_end s f e <-> exists j, e = Z.of_nat (j + 3) /\ (j < length s)%nat /\ Z.of_nat j mod 3 = frame_key f /\
+                                          word_at STOP_WORDS (skipn j (strand_str s f)) = true).
+Proof. exact (fun s f a e G => conj (is_orf_text_iff s f a e G) (conj (fun a => iff_refl _) (fun e => iff_refl _))). Qed.
+Print Assumptions C12_is_orf_text.
+
+(* ... and on ANY (gapped) text the listed ORFs of a frame are, one to one and in the same order, the text-level ORFs of the
+   degapped sequence under p -> residues before column p of the strand *)
+Theorem C12_default_orfs_text : forall s f,
+  default_list (degap s) f = map (fun p => (rbZ (strand_str s f) (fst p), rbZ (strand_str s f) (snd p))) (default_list s f) /\
+  (forall a e, In (a, e) (default_list s f) -> is_orf_text (degap s) f (rbZ (strand_str s f) a) (rbZ (strand_str s f) e)) /\
+  (forall a' e', is_orf_text (degap s) f a' e' ->
+     exists a e, In (a, e) (default_list s f) /\ a' = rbZ (strand_str s f) a /\ e' = rbZ (strand_str s f) e).
+Proof. exact (fun s f => conj (default_list_degap s f) (default_orfs_text s f)). Qed.
+Print Assumptions C12_default_orfs_text.
+
+Example C12_witness_is_orf_text : is_orf_text (bs "CCATGAAATAAC"%bs) 2 2 11.
+Proof. exact is_orf_text_witness. Qed.
